@@ -225,17 +225,21 @@ def run_case_impl(ck, c, idx):
             rng = ck.rng
             k = rng.randint(1, len(t))
             sel = rp.get("faces") or rng.sample(range(len(t)), k)
-            sub = g.isel(n_face=sel)
-            st = [[int(x) for x in r] for r in np.asarray(sub.face_node_connectivity.values)]
-            se = [tuple(int(x) for x in r) for r in np.asarray(sub.edge_node_connectivity.values)]
-            sfe = [[int(x) for x in r] for r in np.asarray(sub.face_edge_connectivity.values)]
-            snpf = [int(x) for x in np.asarray(sub.n_nodes_per_face.values)]
-            bad = spec_check(st, se, sfe, snpf, int(sub.n_edge))
-            if bad:
-                ck.fail(bad, {"table": t, "level": "isel", "order": idx % 3, "layout": (idx // 3) % 3, "supplied_edges": sup,
-                              "faces": sel, "lonlat": ll}, {"level": "isel", "supplied_edges": bool(sup)},
-                        detail=json.dumps({"sub_table": st, "edges": se, "face_edge": sfe, "npf": snpf}))
-            ck.extra["isel_grids_checked"] = ck.extra.get("isel_grids_checked", 0) + 1
+            try:
+                sub = g.isel(n_face=sel)
+                st = [[int(x) for x in r] for r in np.asarray(sub.face_node_connectivity.values)]
+                se = [tuple(int(x) for x in r) for r in np.asarray(sub.edge_node_connectivity.values)]
+                sfe = [[int(x) for x in r] for r in np.asarray(sub.face_edge_connectivity.values)]
+                snpf = [int(x) for x in np.asarray(sub.n_nodes_per_face.values)]
+                bad = spec_check(st, se, sfe, snpf, int(sub.n_edge))
+                if bad:
+                    ck.fail(bad, {"table": t, "level": "isel", "order": idx % 3, "layout": (idx // 3) % 3, "supplied_edges": sup,
+                                  "faces": sel, "lonlat": ll}, {"level": "isel", "supplied_edges": bool(sup)},
+                            detail=json.dumps({"sub_table": st, "edges": se, "face_edge": sfe, "npf": snpf}))
+                ck.extra["isel_grids_checked"] = ck.extra.get("isel_grids_checked", 0) + 1
+            except Exception as ex:
+                ck.fail("raises", {"table": t, "level": "isel", "order": idx % 3, "layout": (idx // 3) % 3, "supplied_edges": sup,
+                                  "faces": sel, "lonlat": ll}, {"level": "isel", "supplied_edges": bool(sup)}, detail=repr(ex))
     except Exception as ex:
         ck.fail("raises", {"table": t, "level": "grid"}, {"level": "grid"}, detail=repr(ex))
     return res
